@@ -59,6 +59,8 @@ type c06Result struct {
 	panic_ string
 }
 
+func init() { SetStackClock = stack.VerifSetMapOrder }
+
 func c06Exec(b []byte, ex *C06Extra, nameArgs bool, mode string, shared ...*stack.Opts) (res c06Result) {
 	m, seedS, _ := strings.Cut(mode, "@")
 	var seed uint64
